@@ -89,6 +89,12 @@ func dotdotThenEmpty(full string) bool {
 	return false
 }
 
+// emptyBaseTarget: shapes of the target path "/"+ref (dot segments removed) that the 'empty base path'
+// branch of ResolveReference gets wrong: "/", "//…", "/%2f…".
+func emptyBaseTarget(t string) bool {
+	return t == "/" || strings.HasPrefix(t, "//") || strings.HasPrefix(t, "/%2f") || strings.HasPrefix(t, "/%2F")
+}
+
 // rfcTargetInput: the path handed to remove_dot_segments by RFC 3986 5.2.2 ("" when none is).
 func rfcTargetInput(b, r parts) (string, bool) {
 	switch {
@@ -107,6 +113,7 @@ var classNames = []string{
 	"empty-host", "opaque-reclassified-abs-path", "special-scheme-no-authority-base", "rootless-base-path-reference",
 	"base-dot-segments-empty-path-reference", "base-empty-query-dropped", "base-fragment-inherited",
 	"dotdot-then-empty-segment", "absolute-reference-rootless-dot-segments", "empty-base-path-reference-to-root",
+	"relative-path-escaped-asterisk", "relative-first-segment-encoded-colon",
 }
 
 // classify returns the classes whose predicate holds. For `iri.parse` only `a` is given (b == "" and
@@ -161,6 +168,18 @@ func classify(op, a, b string) []string {
 	add("opaque-reclassified-abs-path", each(func(p parts, _ bool) bool {
 		return p.hasScheme && !special(p.scheme) && !p.hasAuthority && strings.HasPrefix(p.path, "/")
 	}))
+	{
+		// a relative reference whose whole path is "%2A": net/url prints the path "*" unescaped
+		r := pb
+		if isParse {
+			r = pa
+		}
+		add("relative-path-escaped-asterisk", !r.hasScheme && !r.hasAuthority && (r.path == "%2A" ||
+			(!isParse && pa.hasAuthority && pa.path == "" && r.path != "" && r.path[0] != '/' && rfcRemoveDotSegments("/"+r.path) == "/%2A")))
+		// printing a relative reference whose first segment hides a ':' as %3a: net/url prefixes "./"
+		seg, _, _ := strings.Cut(pa.path, "/")
+		add("relative-first-segment-encoded-colon", isParse && !pa.hasScheme && !pa.hasAuthority && (strings.Contains(seg, "%3a") || strings.Contains(seg, "%3A")))
+	}
 	if !isParse {
 		relRef := !pb.hasScheme && !pb.hasAuthority
 		emptyRef := relRef && pb.path == "" && !pb.hasQuery
@@ -178,7 +197,7 @@ func classify(op, a, b string) []string {
 		if full, ok := rfcTargetInput(pa, pb); ok {
 			add("dotdot-then-empty-segment", dotdotThenEmpty(full))
 		}
-		add("empty-base-path-reference-to-root", pa.hasAuthority && pa.path == "" && relRef && pb.path != "" && pb.path[0] != '/' && (rfcRemoveDotSegments("/"+pb.path) == "/" || strings.HasPrefix(rfcRemoveDotSegments("/"+pb.path), "//") || strings.HasPrefix(pb.path, "%2f") || strings.HasPrefix(pb.path, "%2F")))
+		add("empty-base-path-reference-to-root", pa.hasAuthority && pa.path == "" && relRef && pb.path != "" && pb.path[0] != '/' && emptyBaseTarget(rfcRemoveDotSegments("/"+pb.path)))
 		add("absolute-reference-rootless-dot-segments", pb.hasScheme && !pb.hasAuthority && !strings.HasPrefix(pb.path, "/") && hasDotSegment(pb.path))
 	}
 	return cls
@@ -215,6 +234,10 @@ var corpus = [][2]string{
 	{"http://h?q", "a/.."},         // http://h
 	{"http://h", ".//a"},           // http://h/a
 	{"http://h", "%2fa/é"},         // http://h%2fa/é
+	{"http://h/a", "%2A"},          // http://h/*
+	{"http://h", "./%2A"},          // http://h/*
+	{"http://h", "./%2fx/é"},       // http://h%2fx/é
+	{"http://h/a", "%3ab/é"},       // parse of the reference prints ./%3ab/é
 	// ordinary resolution (RFC 3986 5.4 examples)
 	{"http://a/b/c/d;p?q", "g:h"}, {"http://a/b/c/d;p?q", "g"}, {"http://a/b/c/d;p?q", "./g"}, {"http://a/b/c/d;p?q", "g/"},
 	{"http://a/b/c/d;p?q", "/g"}, {"http://a/b/c/d;p?q", "//g"}, {"http://a/b/c/d;p?q", "?y"}, {"http://a/b/c/d;p?q", "g?y"},
